@@ -11,3 +11,15 @@ type Job struct {
 	RaceLog  string  `json:"race_log"` // GORACE log_path prefix
 }
 
+
+// ProbeResult is one case of the (non-simulated) real-process probe of C31.
+type ProbeResult struct {
+	Name     string  `json:"name"`
+	Program  string  `json:"program"`
+	OK       bool    `json:"ok"`
+	Class    string  `json:"class,omitempty"`
+	Detail   string  `json:"detail,omitempty"`
+	Seconds  float64 `json:"seconds"`
+	Err      string  `json:"err"`
+	Attempts int     `json:"attempts"`
+}
